@@ -16,6 +16,7 @@ import (
 	"gverif/engine/loopidx"
 	"gverif/engine/okflow"
 	"gverif/engine/overlap"
+	"gverif/engine/paramuse"
 	"gverif/engine/pool"
 	"gverif/engine/stride"
 	"gverif/engine/twin"
@@ -116,6 +117,11 @@ func init() {
 			li := loopidx.Run(def, core.Pkgs(blasPkgs...))
 			li.Floor("counting_loops_with_element_stores", 300)
 			res.Merge(li)
+			for _, c := range []core.Config{{}, {Tags: "noasm"}} {
+				pu := paramuse.Run(c, core.Pkgs(blasPkgs...))
+				pu.Floor("parameters", 1500)
+				res.Merge(pu)
+			}
 			t := twin.Run(twin.Which{Generated: true, Prefixes: []string{"blas/"}})
 			t.Floor("generated_file_pairs", 17)
 			t.Floor("twin_declaration_pairs", 140)
@@ -149,6 +155,7 @@ func lapackProp(self, other, what string) *property {
 			li := loopidx.Run(def, sc)
 			li.Floor("counting_loops_with_element_stores", 100)
 			res.Merge(li)
+			res.Merge(paramuse.Run(def, core.Scope{Patterns: []string{"./lapack/gonum"}, Files: sc.Files}))
 			ok := okflow.Run(def, core.Scope{Patterns: []string{"./lapack/gonum"}, Files: sc.Files})
 			ok.Floor("status_call_sites", 10)
 			res.Merge(ok)
@@ -211,7 +218,7 @@ func init() {
 
 func init() {
 	properties["C08"] = &property{
-		explanation: "Decides the build-configuration clauses of C08 statically: CONFIG.build/.api — every package with tag- or arch-selected files (discovered by scanning //go:build lines; thorough: every package) loads and type-checks under {default, noasm, safe, bounds, tomita, debug} x {amd64, arm64, 386} and exports the same API in each, so the assembly, pure-Go and safe builds are interchangeable at the type level (the test suite compiles one configuration); TWIN.r3 — the safe and unsafe 3x3 builders of spatial/r3 (Eye, Skew, Mul, Rotation.Mat) store the identical expression to every element; STRIDE on the pure-Go kernels of internal/asm under default and noasm. Does NOT decide that assembly or a noasm loop equals the scalar definition, nor search/ordering helpers, norms or NaN handling (value-level).",
+		explanation: "Decides the build-configuration clauses of C08 statically: CONFIG.build/.api — every package with tag- or arch-selected files (discovered by scanning //go:build lines; thorough: every package) loads and type-checks under {default, noasm, safe, bounds, tomita, debug} x {amd64, arm64, 386} and exports the same API in each, so the assembly, pure-Go and safe builds are interchangeable at the type level (the test suite compiles one configuration); TWIN.r3 — the safe and unsafe 3x3 builders of spatial/r3 (Eye, Skew, Mul, Rotation.Mat) store the identical expression to every element; STRIDE on the pure-Go kernels of internal/asm under default and noasm; PARAMUSE — every parameter of the kernels and of floats/cmplxs is read (a length or increment that is accepted but never consulted is the footprint of a loop bounded by len(x) instead of n). Does NOT decide that assembly or a noasm loop equals the scalar definition, nor search/ordering helpers, norms or NaN handling (value-level).",
 		assumptions: commonAssumptions,
 		run: func(tier string, res *core.Result) {
 			pk, counts, err := config.TaggedPackages()
@@ -235,6 +242,9 @@ func init() {
 			for _, cfg := range []core.Config{{}, {Tags: "noasm"}} {
 				r := stride.Run(cfg, core.Pkgs(asm...))
 				res.Merge(r)
+				pu := paramuse.Run(cfg, core.Pkgs(append([]string{"./floats/...", "./cmplxs/...", "./internal/math32", "./internal/cmplx64"}, asm...)...))
+				pu.Floor("parameters", 400)
+				res.Merge(pu)
 			}
 		},
 	}
@@ -263,7 +273,7 @@ func init() {
 
 func init() {
 	properties["C05"] = &property{
-		explanation: "Decides the 'partial overlap panics instead of returning' mechanism of C05 for every exported pointer-receiver method of the overlap-aware mat types (Dense, VecDense, SymDense, TriDense, CDense and the band/diag/tridiag types; ...To(dst) methods use dst as destination): OVERLAP.guard — a forward must-analysis over each method's CFG proves that at every kernel write of the destination (blas64/lapack64/asm call, copy or Data store) every operand whose raw storage is read by that same statement has, on every path, passed a checkOverlap*/isolatedWorkspace guard, an identity test (recv == operand edge), the isolated-workspace edge (restore != nil), or delegation to a method that guards it; a failed type assertion makes the guard vacuous (no storage to compare). OVERLAP.iso — every isolatedWorkspace restore closure is deferred or called. Copy/Clone methods (memmove semantics) are out of scope. Does NOT decide correctness of the overlap predicate's arithmetic (rectanglesOverlap, offset), Dense.Copy's direction choice, generic At/set loops over operands of unknown type, nor that operands are never written.",
+		explanation: "Decides the 'partial overlap panics instead of returning' mechanism of C05 for every exported pointer-receiver method of the overlap-aware mat types (Dense, VecDense, SymDense, TriDense, CDense and the band/diag/tridiag types; ...To(dst) methods use dst as destination): OVERLAP.guard — a forward must-analysis over each method's CFG proves that at every kernel write of the destination (blas64/lapack64/asm call, copy or Data store) every operand whose raw storage is read by that same statement has, on every path, passed a checkOverlap*/isolatedWorkspace guard, an identity test (recv == operand edge), the isolated-workspace edge (restore != nil), or delegation to a method that guards it; a failed type assertion makes the guard vacuous (no storage to compare). OVERLAP.iso — every isolatedWorkspace restore closure is deferred or called. OVERLAP.elemsize — in both the default and the safe build the address difference of two slices is divided by the size of exactly their element type. Copy/Clone methods (memmove semantics) are out of scope. Does NOT decide correctness of the overlap predicate's arithmetic (rectanglesOverlap, offset), Dense.Copy's direction choice, generic At/set loops over operands of unknown type, nor that operands are never written.",
 		assumptions: commonAssumptions,
 		run: func(tier string, res *core.Result) {
 			r := overlap.Run(def)
@@ -271,6 +281,11 @@ func init() {
 			r.Floor("operand_write_obligations", 45)
 			r.Floor("isolated_workspace_sites", 8)
 			res.Merge(r)
+			for _, c := range []core.Config{{}, {Tags: "safe"}} {
+				es := overlap.RunElemSize(c)
+				es.Floor("address_difference_divisions", 2)
+				res.Merge(es)
+			}
 			if tier == "thorough" {
 				for _, c := range []core.Config{{Tags: "safe"}, {Tags: "bounds"}, {GOARCH: "386"}} {
 					res.Merge(overlap.Run(c))
@@ -284,7 +299,7 @@ var concurrentPkgs = []string{"./blas/gonum", "./integrate/quad", "./diff/fd", "
 
 func init() {
 	properties["C09"] = &property{
-		explanation: "Decides the synchronisation structure behind C09 at all 21 go statements of non-test code and for all pooled workspaces of mat: GOPROTO.capture — every variable of a spawning function that a goroutine assigns is written under a mutex that covers every other concurrent access, or by a single goroutine whose deferred WaitGroup.Done every other access Wait()s for on all paths; GOPROTO.wg — each WaitGroup.Add is matched by goroutines that defer Done, Add(n) equals the spawning loop's trip count (including gemm's blocks(m,bs)*blocks(n,bs) tiling), and Wait is present; GOPROTO.close — every ranged/quit channel is closed by exactly one site, reached on every exit when unconditional ('leaves no goroutines behind'); GOPROTO.sibling — serial and concurrent implementations dispatched from one call site read the same settings (found and repaired: OriginKnown ignored by three concurrent fd paths, one user-function call too many); POOL.once/.uaf/.escape — no pooled workspace is put twice on a path, used after its put, or retained in a field, package variable, goroutine or exported result. Does NOT decide tile disjointness, bit-identical reduction order, callback counts in general, or races through aliased matrix views; nothing is executed and no race detector is used.",
+		explanation: "Decides the synchronisation structure behind C09 at all 21 go statements of non-test code and for all pooled workspaces of mat: GOPROTO.capture — every variable of a spawning function that a goroutine assigns is written under a mutex that covers every other concurrent access, or by a single goroutine whose deferred WaitGroup.Done every other access Wait()s for on all paths; GOPROTO.wg — each WaitGroup.Add is matched by goroutines that defer Done, Add(n) equals the spawning loop's trip count (including gemm's blocks(m,bs)*blocks(n,bs) tiling), and Wait is present; GOPROTO.close — every ranged/quit channel is closed by exactly one site, reached on every exit when unconditional ('leaves no goroutines behind'); GOPROTO.lockpair — every Lock() is paired with its Unlock() in the same statement list; GOPROTO.once — a field initialised inside sync.Once.Do is never read around the Do call (double-checked locking) and other methods read it only after calling the initialiser; GOPROTO.sibling — serial and concurrent implementations dispatched from one call site read the same settings (found and repaired: OriginKnown ignored by three concurrent fd paths, one user-function call too many); POOL.once/.uaf/.escape — no pooled workspace is put twice on a path, used after its put, or retained in a field, package variable, goroutine or exported result. Does NOT decide tile disjointness, bit-identical reduction order, callback counts in general, or races through aliased matrix views; nothing is executed and no race detector is used.",
 		assumptions: commonAssumptions,
 		run: func(tier string, res *core.Result) {
 			g := goproto.Run(def, core.Pkgs(concurrentPkgs...))
@@ -294,6 +309,10 @@ func init() {
 			g.Floor("channels_with_close_protocol", 10)
 			g.Floor("serial_concurrent_sibling_pairs", 4)
 			res.Merge(g)
+			lk := goproto.RunLocks(def, core.Pkgs(concurrentPkgs...))
+			lk.Floor("lock_statements", 3)
+			lk.Floor("once_do_sites", 1)
+			res.Merge(lk)
 			p := pool.Run(def)
 			p.Floor("workspace_tokens", 60)
 			p.Floor("put_sites", 60)
@@ -439,6 +458,8 @@ func dump(argv []string) {
 		res = loopidx.Run(def, core.Pkgs(argv[1:]...))
 	case "goproto":
 		res = goproto.Run(def, core.Pkgs(argv[1:]...))
+	case "goprotolocks":
+		res = goproto.RunLocks(def, core.Pkgs(argv[1:]...))
 	case "goprotorun":
 		res = goproto.RunProtocol(def)
 	case "graphinv":
@@ -452,6 +473,12 @@ func dump(argv []string) {
 	case "dspx":
 		res = dspx.RunReset(def)
 		res.Merge(dspx.RunWindow(def))
+	case "elemsize":
+		res = overlap.RunElemSize(def)
+		res.Merge(overlap.RunElemSize(core.Config{Tags: "safe"}))
+	case "paramuse":
+		res = paramuse.Run(def, core.Pkgs(argv[1:]...))
+		res.Merge(paramuse.Run(core.Config{Tags: "noasm"}, core.Pkgs(argv[1:]...)))
 	case "twin":
 		res = twin.Run(twin.Which{Generated: true, Bounds: true, ReuseAs: true, R3: true, Siblings: []string{"graph/iterator"}})
 	case "args":
